@@ -129,8 +129,9 @@ impl Expr {
             Expr::Call(n, args) => {
                 // some call sites are written with whitespace between the name and the parenthesis
                 // (decided by the name and arity, so that rendering stays a pure function of the tree)
-                let gap = if (crate::prng::h64(n.as_bytes()) as usize + args.len()) % 5 == 0 { " " } else { "" };
-                format!("{}{}({})", n, gap, args.iter().map(|a| a.operand()).collect::<Vec<_>>().join(", "))
+                let argtxt = args.iter().map(|a| a.operand()).collect::<Vec<_>>().join(", ");
+                let gap = if (crate::prng::h64(n.as_bytes()) ^ crate::prng::h64(argtxt.as_bytes())).wrapping_add(args.len() as u64) % 5 == 0 { " " } else { "" };
+                format!("{}{}({})", n, gap, argtxt)
             }
             Expr::Un(op, e) => format!("{} {}", op, e.operand()),
             Expr::Bin(op, l, r) => format!("{} {} {}", l.operand(), op, r.operand()),
